@@ -26,7 +26,8 @@
 (*   OnlyCaller  something of an account other than the immediate caller   *)
 (*               changed (the sender's fee excepted)                       *)
 (*   Forged      a signed message with delegator / caller / signer / chain *)
-(*               id mismatch or a changed field had an effect              *)
+(*               id mismatch or a changed field had an effect (the caller  *)
+(*               is the immediate caller: the tx origin is no authority)   *)
 (*   Cpc         success, delegations, entries, rewards or balances differ *)
 (*               from the native route's                                   *)
 (*   Logs        receipt logs are not exactly the translation of the       *)
@@ -74,8 +75,9 @@ LogRec(x) == [k |-> x.k, d |-> x.d, v |-> x.v, amt |-> x.amt]
 LogsNorm(s) == [i \in 1..Len(s) |-> LogRec(s[i])]
 SeqEq(a, b) == Len(a) = Len(b) /\ \A i \in 1..Len(a) : a[i] = b[i]
 
-ForgedClass(op, c) ==
-  IF op.md # c THEN "delegator#caller"
+ForgedClass(op, c, sender) ==
+  IF RelayedByOrigin(op, c, sender) THEN "relayed-by-contract-for-its-tx-origin"
+  ELSE IF op.md # c THEN "delegator#caller"
   ELSE IF op.signer # op.md THEN "signer#delegator"
   ELSE IF op.chain # "ours" THEN "other-chain-id"
   ELSE "field-changed-after-signing"
@@ -112,8 +114,8 @@ TwinCheck(e) ==
        T(e.A.code # 0 \/ ~e.A.receipt, <<"Model", "ethereum-tx-not-executed">>),
        T(~Conserved(cf, gotB), <<"Model", "native-conservation">>),
        \* ---- the precompile
-       FrameCheck(preM, gotA, c, e.sender, feeA),
        T(forged /\ e.A.ok, <<"Forged", "forged-message-accepted">>),
+       FrameCheck(preM, gotA, c, e.sender, feeA),
        IF forged THEN CmpSt(gotA, WithFee(preM, e.sender, feeA), "Forged", "forged-message-changed") ELSE OK,
        T(e.A.ok /\ ~E.ok, <<"Cpc", "succeeded-where-native-fails">>),
        T(~e.A.ok /\ E.ok, <<"Cpc", "failed-where-native-succeeds">>),
@@ -131,11 +133,11 @@ TwinCheck(e) ==
 TwinClass(e) ==
   LET op == e.ops[1] IN
   IF IsSigned(op) /\ ~ValidSigned(op, e.caller)
-  THEN "forged/" \o op.m \o "/" \o ForgedClass(op, e.caller)
+  THEN "forged/" \o op.m \o "/" \o ForgedClass(op, e.caller, e.sender)
   ELSE op.m \o "/" \o e.via \o "/" \o (IF e.A.ok THEN "ok" ELSE "fail")
 
 ForgedKey(e) ==
-  LET op == e.ops[1] IN "grid/" \o op.md \o "/" \o e.caller \o "/" \o op.signer \o "/" \o op.chain \o "/" \o op.tamper
+  LET op == e.ops[1] IN "grid/" \o op.md \o "/" \o e.caller \o "/" \o op.signer \o "/" \o op.chain \o "/" \o op.tamper \o "/" \o e.sender
 
 AccrueCheck(e) ==
   LET pre == S
